@@ -2,3 +2,8 @@ import LicenseExpr.Props.C03
 #print axioms LE.C03_no_crash_tokens
 #print axioms LE.C03_no_crash
 #print axioms LE.C03_error_token
+#print axioms LE.C03_reject_tokens
+#print axioms LE.C03_reject_with
+#print axioms LE.C03_reject
+#print axioms LE.C03_bad_pair_rejected
+#print axioms LE.C03_unbalanced_rejected
